@@ -24,5 +24,26 @@ let run inp obs : string option * string option =
     let got = msgs ^ " " ^ fin in
     let spec = if want = got then None else Some (Printf.sprintf "sequence: implementation gave [%s], the parser gives [%s]" got want) in
     (spec, Model17.seq inp obs)
+  | ["C17W"; c; size; fill; fail_at], [written; st] ->
+    let c = codec_of c and size = int_of_string size and fill = int_of_string fill in
+    let msg = Stdlib.List.init size (fun i -> n_of_int ((fill + i) land 255)) in
+    let w = bytes_of_hex written in
+    let frame = Codec.write_next c msg in
+    if st = "panic" then (Some "WriteNext panicked", None)
+    else if st = "clobbered" then (Some "WriteNext modified the caller's message", None)
+    else if fail_at <> "0" then
+      ((if st = "err" || w = frame then None
+        else Some "the writer refused a Write, WriteNext returned nil and the frame is incomplete"), None)
+    else begin
+      let spec =
+        if st <> "nil" then Some "WriteNext failed on a writer that accepts everything"
+        else match c with
+          | Frames.CProto ->
+            let (ms, e) = Frames.parse_all (nat_of_int 4) c (nat_of_int (size + 1)) w in
+            if ms = [msg] && e = Frames.SClean then None
+            else Some (Printf.sprintf "the frame written for a %d-byte message does not read back as that message" size)
+          | _ -> if w = msg then None else Some (Printf.sprintf "the bytes written for a %d-byte message are not the message" size) in
+      (spec, if w = frame then None else Some "model predicts another frame")
+    end
   | _ -> (Some "unparsable C17 case", None)
 let () = Evalreg.register "C17" run
